@@ -263,7 +263,16 @@ def _bm_near(p, rule):
     return _matmul_shape(a, b) != rc or S.is_nonconst(p) or p["dims"] != "static"
 
 
-S.register(Space("reshape_matmul_reshape", _bm_dims, _bm_build, near=_bm_near),
+def _bm_klass(nd, p, rule):
+    if list(nd) == ["case"]:
+        a, ra, b, rb, rc = p["case"]
+        if _matmul_shape(a, b) == rc:
+            # the rule only compares shapes: MatMul(a, b) has the final shape, but the reshapes regroup rows/batches
+            return "case=final-shape-equals-direct-matmul-shape-but-reshape-regroups"
+    return None
+
+
+S.register(Space("reshape_matmul_reshape", _bm_dims, _bm_build, near=_bm_near, klass=_bm_klass),
            rule_ids=["two_reshapes_matmul_reshape_rule", "one_reshape_matmul_reshape_rule"])
 
 
@@ -321,7 +330,17 @@ def _cos_build(p, rule):
     return mb
 
 
-S.register(Space("cast_constant_of_shape", _cos_dims, _cos_build, near=None, prune=_cos_prune),
+def _cos_klass(nd, p, rule):
+    if "without_value" in rule["id"] and p["value"] == "attr" and set(nd) <= {"v", "vd", "to", "shape"}:
+        return "value=attr-present"
+    return None
+
+
+def _cos_near(p, rule):
+    return "without_value" in rule["id"] and p["value"] == "attr"
+
+
+S.register(Space("cast_constant_of_shape", _cos_dims, _cos_build, near=_cos_near, prune=_cos_prune, klass=_cos_klass),
            rule_ids=["cast_constant_of_shape_rule", "cast_constant_of_shape_without_value_rule"])
 
 
@@ -462,7 +481,16 @@ def _mat_build(p, rule):
     if p["allowzero"] != "absent":
         attrs["allowzero"] = int(p["allowzero"])
     r = mb.node("Reshape", [x, sh], **attrs)
-    mb.out(r)
+    # the declared output shape is what (symbolic) shape inference yields for this host
+    if src == "input":
+        oshape = [None] * len(ts)
+    elif src == "const-init":
+        oshape = list(ts)
+    else:
+        p3 = dict(p)
+        p3["dims"] = "static" if not tsym else p["dimstyle"]
+        oshape = S.shp(p3, ts, sym_axes=tsym)
+    mb.out(r, p["dtype"], oshape)
     S.expose(mb, p, [sh])
     return mb
 
@@ -547,7 +575,13 @@ def _mm_near(p, rule):
         or (clip and p["cshape"] in ([3], [2, 1])) or (rule["id"] == "min_max_rule" and p["vals"] == "inverted")
 
 
-S.register(Space("min_max", _mm_dims, _mm_build, near=_mm_near, prune=_mm_prune), rule_ids=list(_MM_OPS))
+def _mm_klass(nd, p, rule):
+    if "cshape" in nd and rule["id"] in ("min_max_rule", "max_min_rule") and set(nd) <= {"cshape", "vals", "cshape2", "xshape"}:
+        return "cshape=" + str(nd["cshape"]).replace(" ", "")
+    return None
+
+
+S.register(Space("min_max", _mm_dims, _mm_build, near=_mm_near, prune=_mm_prune, klass=_mm_klass), rule_ids=list(_MM_OPS))
 
 
 # ---------------------------------------------------------------------------------------------------
@@ -624,6 +658,14 @@ def _rc_near(p, rule):
     return S.is_nonconst(p)
 
 
-S.register(Space("relu_clip", _rc_dims, _rc_build, near=_rc_near, prune=_rc_prune),
+def _rc_klass(nd, p, rule):
+    if rule["id"] == "successive_clip_rule" and set(nd) <= {"min1", "max1", "min2", "max2"}:
+        mx1, mn2 = _CL_MAX[p["max1"]], _CL_MIN[p["min2"]]
+        if mx1 is not None and mn2 is not None and mn2 > mx1:
+            return "min2>max1"
+    return None
+
+
+S.register(Space("relu_clip", _rc_dims, _rc_build, near=_rc_near, prune=_rc_prune, klass=_rc_klass),
            rule_ids=["successive_clip_relu_rule", "successive_relu_clip_rule", "successive_relu_rule",
                      "successive_clip_rule"])
